@@ -688,6 +688,30 @@ fn gen_junk(r: &mut Rng, k: usize, mode: Mode, valid: &[u8]) -> (&'static str, V
     }
 }
 
+/// the number of bytes the first term of `body` occupies (terms as they stand after a distribution header: no version
+/// byte, atoms as ATOM_CACHE_REF or inline); only the shapes the cached sender writes for a control tuple
+fn erltf_term_len(body: &[u8]) -> usize {
+    fn skip(b: &[u8], p: usize) -> usize {
+        match b[p] {
+            82 | 97 => p + 2,
+            98 => p + 5,
+            106 => p + 1,
+            119 => p + 2 + b[p + 1] as usize,
+            118 => p + 3 + u16::from_be_bytes([b[p + 1], b[p + 2]]) as usize,
+            88 => skip(b, p + 1) + 12,
+            104 => {
+                let mut q = p + 2;
+                for _ in 0..b[p + 1] {
+                    q = skip(b, q);
+                }
+                q
+            }
+            t => panic!("erltf_term_len: tag {} not expected in a control tuple of the cached sender", t),
+        }
+    }
+    skip(body, 0)
+}
+
 fn gen_cuts(r: &mut Rng, total: usize) -> Option<Vec<usize>> {
     match r.below(4) {
         0 => None,
@@ -775,6 +799,9 @@ struct Runner {
 }
 
 impl Runner {
+    fn bump(r: &mut Runner) {
+        r.case += 1;
+    }
     /// run one history, write its T and P lines. `ptag` is the failure class of the oracle line; `lenient` names sequence
     /// ids whose frames the second (always `gen`) oracle line does not judge.
     async fn one(&mut self, ctx: &mut Ctx, api: Api, mode: Mode, frames: &[Vec<u8>], cuts: Option<Vec<usize>>, ptag: &str, lenient: &[u64]) -> Vec<String> {
@@ -812,6 +839,11 @@ impl Runner {
         }
         if lenient.is_empty() {
             ctx.prop(ptag, &format!("c06oracle {} {} {} {} {} -", api.word(), mode.word(), oracle, fw, rw), "ok");
+        } else if ptag == "gen" {
+            // no recorded finding involved: the named sequences carry frames on which the reference reader and the
+            // property have nothing to say beyond "one result or none, no panic, later frames intact"
+            let lw = lenient.iter().map(|s| s.to_string()).collect::<Vec<_>>().join(",");
+            ctx.prop("gen", &format!("c06oracle {} {} {} {} {} {}", api.word(), mode.word(), oracle, fw, rw, lw), "ok");
         } else {
             let lw = lenient.iter().map(|s| s.to_string()).collect::<Vec<_>>().join(",");
             ctx.prop(ptag, &format!("c06oracle {} {} {} {} {} -", api.word(), mode.word(), oracle, fw, rw), "ok");
@@ -1140,6 +1172,264 @@ pub fn run(ctx: &mut Ctx) {
                     }
                 }
                 ctx.count("scripted_taint_histories");
+            }
+        }
+
+        // J. REFUSED BODIES BEHIND ACCEPTED HEADERS. Histories of the cached sender in which some messages arrive with an
+        //    intact distribution header (new entries, references to existing entries) and a body the receiver must refuse:
+        //    truncated terms, a byte left over, a control term that is no control tuple, random bytes, an unknown tag, a
+        //    payload nested deeper than the decoder goes. The peer has announced the header's entries: from then on it
+        //    refers to them as existing entries. The refused frame must cost exactly one error; every later message must
+        //    be delivered as meant. Whole frames, single fragments and two-fragment sequences whose continuation is empty
+        //    (the header then reaches the decoder only when the LAST fragment completes the sequence).
+        let n_j = ctx.n(22, 160);
+        for i in 0..n_j {
+            let mut stats: Vec<&'static str> = vec![];
+            let mut frames: Vec<Vec<u8>> = vec![];
+            let mut lenient: Vec<u64> = vec![];
+            let mut sender = crate::c14::Sender::new(ctx.rng.next(), *ctx.rng.pick(&[256u64, 256, 4]), *ctx.rng.pick(&[8u64, 2, 1]));
+            let pool = ["ok", "error", "rex", "", "kéks", "x@h", "Elixir.Foo", "undefined", "b", "node@host", "gen_server", "call"];
+            let len = ctx.rng.range(3, 7) as usize;
+            // the refused message comes early, so that what it announced is used afterwards
+            let bad_at = ctx.rng.below(2) as usize;
+            let mut shadow: std::collections::HashMap<(u8, u8), Vec<u8>> = std::collections::HashMap::new();
+            let mut sent: Vec<CMsg> = vec![];
+            // per message: index of its result among the results, existing-entry references, refused?
+            let mut per_msg: Vec<(usize, u64, bool)> = vec![];
+            let mut seen_bad = false;
+            for k in 0..len {
+                if ctx.rng.chance(1, 6) {
+                    frames.push(vec![]);
+                    ctx.count("ticks_sent");
+                }
+                let control = OwnedTerm::Tuple(vec![
+                    OwnedTerm::Integer(6),
+                    OwnedTerm::Pid(erltf::types::ExternalPid::new(Atom::new(*ctx.rng.pick(&pool)), 5, 0, 1)),
+                    OwnedTerm::Atom(Atom::new("")),
+                    OwnedTerm::Atom(Atom::new(*ctx.rng.pick(&pool))),
+                ]);
+                let n = ctx.rng.range(1, 4) as usize;
+                let payload = OwnedTerm::Tuple((0..n).map(|_| OwnedTerm::Atom(Atom::new(*ctx.rng.pick(&pool)))).collect());
+                let bytes = sender.send(&mut ctx.rng, &[control, payload], &mut stats);
+                let Some((long, es, hlen)) = read_entries(&bytes, &mut shadow) else {
+                    ctx.fail("c06-harness", "the sender model wrote a header the harness cannot read back");
+                    continue;
+                };
+                let olds = es.iter().filter(|e| !e.3).count() as u64;
+                let news = es.iter().filter(|e| e.3).count() as u64;
+                let good_body = bytes[hlen..].to_vec();
+                let bad = k == bad_at || ctx.rng.chance(1, 5);
+                let mut deep = false;
+                let body: Vec<u8> = if !bad {
+                    good_body.clone()
+                } else {
+                    seen_bad = true;
+                    ctx.add("refused_body_new_entries_announced", news);
+                    let kind = if i % 7 == 3 && k == bad_at { 5 } else { ctx.rng.below(7) };
+                    match kind {
+                        0 => {
+                            ctx.count("refused_body_truncated");
+                            // inside the control tuple, or inside the payload
+                            let cut = ctx.rng.range(0, good_body.len() as u64 - 1) as usize;
+                            good_body[..cut].to_vec()
+                        }
+                        1 => {
+                            ctx.count("refused_body_trailing_byte");
+                            let mut b = good_body.clone();
+                            b.push(106);
+                            b
+                        }
+                        2 => {
+                            ctx.count("refused_body_not_a_control_tuple");
+                            let b: &[u8] = *ctx.rng.pick(&[&[106u8][..], &[97, 1], &[104, 0], &[104, 2, 82, 0, 97, 1]]);
+                            b.to_vec()
+                        }
+                        3 => {
+                            ctx.count("refused_body_random");
+                            let n = ctx.rng.range(1, 16) as usize;
+                            plain_bytes(&mut ctx.rng, n)
+                        }
+                        4 => {
+                            ctx.count("refused_body_unknown_tag");
+                            // the control tuple intact, the payload starts with a tag no term has
+                            let mut b = good_body.clone();
+                            let ctl_len = erltf_term_len(&good_body);
+                            b.truncate(ctl_len);
+                            b.extend_from_slice(&[*ctx.rng.pick(&[0u8, 1, 96, 200, 255]), 1, 2, 3]);
+                            b
+                        }
+                        5 => {
+                            ctx.count("refused_body_nested_too_deep");
+                            // the control tuple intact, the payload a list nested 300 deep (the decoder stops at 256)
+                            deep = true;
+                            let mut b = good_body.clone();
+                            let ctl_len = erltf_term_len(&good_body);
+                            b.truncate(ctl_len);
+                            for _ in 0..300 {
+                                b.extend_from_slice(&[108, 0, 0, 0, 1]);
+                            }
+                            b.push(106);
+                            for _ in 0..300 {
+                                b.push(106);
+                            }
+                            b
+                        }
+                        _ => {
+                            ctx.count("refused_body_empty");
+                            vec![]
+                        }
+                    }
+                };
+                let mut whole = bytes[..hlen].to_vec();
+                whole.extend_from_slice(&body);
+                per_msg.push((frames.iter().filter(|f| !f.is_empty() && !(f.len() > 1 && f[1] == 69 && f[17] == 2)).count(), olds, bad));
+                sent.push((long, es, body.clone(), whole.clone()));
+                let seq = 7000 + (i * 16 + k) as u64;
+                let framing = if deep { 1 } else { ctx.rng.below(4) };
+                match framing {
+                    1 => {
+                        // single fragment; a body nested too deep always travels like this, so that its sequence id can be
+                        // exempted: the reference reader has no nesting limit (that limit is the decoder's, C02)
+                        let mut f = vec![131u8, 69];
+                        f.extend_from_slice(&seq.to_be_bytes());
+                        f.extend_from_slice(&1u64.to_be_bytes());
+                        f.extend_from_slice(&whole[2..]);
+                        if deep {
+                            lenient.push(seq);
+                        }
+                        ctx.count(if bad { "refused_body_in_single_fragment" } else { "hdr_cached_single_fragment" });
+                        frames.push(f);
+                    }
+                    2 => {
+                        // two fragments, everything in the first, the last one empty (order-insensitive, so the recorded
+                        // finding about the order does not apply); a tick may come between them
+                        let mut f = vec![131u8, 69];
+                        f.extend_from_slice(&seq.to_be_bytes());
+                        f.extend_from_slice(&2u64.to_be_bytes());
+                        f.extend_from_slice(&whole[2..]);
+                        frames.push(f);
+                        if ctx.rng.chance(1, 3) {
+                            frames.push(vec![]);
+                        }
+                        let mut c = vec![131u8, 70];
+                        c.extend_from_slice(&seq.to_be_bytes());
+                        c.extend_from_slice(&1u64.to_be_bytes());
+                        frames.push(c);
+                        ctx.count(if bad { "refused_body_completed_by_last_fragment" } else { "hdr_cached_two_fragments" });
+                    }
+                    _ => {
+                        ctx.count(if bad { "refused_body_in_whole_frame" } else { "hdr_cached_whole_frame" });
+                        frames.push(whole);
+                    }
+                }
+                let _ = seen_bad;
+            }
+            for st in stats {
+                ctx.count(&format!("cache_{}", st));
+            }
+            ctx.count("refused_body_histories");
+            let total: usize = frames.iter().map(|f| f.len() + 4).sum();
+            let cuts = if ctx.rng.chance(1, 3) { gen_cuts(&mut ctx.rng, total) } else { None };
+            // the headers (with whatever follows them) are a history of the conforming sender
+            ctx.prop("gen", &format!("c06form chist {}", chist_word(&sent)), "ok");
+            let res = run.one(ctx, Api::Conn, Mode::Hdr, &frames, cuts, "gen", &lenient).await;
+            if res.len() == per_msg.len() {
+                let mut after_bad = false;
+                for (k, olds, bad) in &per_msg {
+                    if *bad {
+                        after_bad = true;
+                        if res[*k] == "err" {
+                            ctx.count("refused_body_answered_with_error");
+                        }
+                    } else if after_bad && res[*k].starts_with("ok~") {
+                        ctx.count("messages_delivered_after_refused_body");
+                        ctx.add("cached_refs_delivered_after_refused_body", *olds);
+                    }
+                }
+            } else {
+                ctx.count("refused_body_histories_not_aligned");
+            }
+            flush_counts(ctx, &mut counts);
+        }
+
+        // K. SEVERAL SEQUENCES IN FLIGHT. Two or three fragmented messages (every continuation empty, so the recorded finding
+        //    about the order does not apply) whose frames are interleaved with each other — each sequence in its own order —,
+        //    with whole messages and with ticks. Every message brings its atoms along, so nothing here depends on WHEN a
+        //    fragment header's cache entries take effect (that is K2). Each message exactly once, at its last fragment.
+        let n_k = ctx.n(12, 80);
+        for i in 0..n_k {
+            let nseq = ctx.rng.range(2, 3) as usize;
+            let mut lanes: Vec<Vec<Vec<u8>>> = vec![];
+            for q in 0..nseq {
+                let m = gen_h_message(&mut ctx.rng, false, &mut counts);
+                let nfrag = ctx.rng.range(2, 4) as usize;
+                let mut lens = vec![m.terms().len()];
+                lens.extend(std::iter::repeat(0).take(nfrag - 2));
+                lanes.push(m.fragments(8000 + (i * 4 + q) as u64, &lens));
+            }
+            for _ in 0..ctx.rng.range(0, 2) {
+                lanes.push(vec![gen_h_message(&mut ctx.rng, false, &mut counts).frame()]);
+            }
+            for _ in 0..ctx.rng.range(0, 2) {
+                lanes.push(vec![vec![]]);
+            }
+            if ctx.rng.chance(1, 2) {
+                // a frame that ends in an error while the sequences are in flight: it must cost them nothing
+                let sample = gen_h_message(&mut ctx.rng, false, &mut counts).frame();
+                let k = *ctx.rng.pick(&[0usize, 1, 2, 3, 4, 5, 6, 7, 8, 9, 10, 11, 14, 15]);
+                let (kind, junk) = gen_junk(&mut ctx.rng, k, Mode::Hdr, &sample);
+                ctx.count(&format!("junk_{}", kind));
+                ctx.count("sequences_in_flight_with_error_frame");
+                lanes.push(vec![junk]);
+            }
+            let mut frames: Vec<Vec<u8>> = vec![];
+            let mut at: Vec<usize> = vec![0; lanes.len()];
+            loop {
+                let open: Vec<usize> = (0..lanes.len()).filter(|&l| at[l] < lanes[l].len()).collect();
+                if open.is_empty() {
+                    break;
+                }
+                let l = *ctx.rng.pick(&open);
+                frames.push(lanes[l][at[l]].clone());
+                at[l] += 1;
+            }
+            ctx.count("sequences_in_flight_histories");
+            ctx.add("sequences_in_flight", nseq as u64);
+            let total: usize = frames.iter().map(|f| f.len() + 4).sum();
+            let cuts = if ctx.rng.chance(1, 3) { gen_cuts(&mut ctx.rng, total) } else { None };
+            run.one(ctx, Api::Conn, Mode::Hdr, &frames, cuts, "gen", &[]).await;
+            flush_counts(ctx, &mut counts);
+        }
+
+        // K2. WHEN DO THE CACHE ENTRIES OF A FRAGMENT HEADER TAKE EFFECT? The peer announces them with the first fragment and
+        //     may refer to them in any frame it sends afterwards — also in a message that overtakes the rest of the sequence
+        //     (frames of different sequences and unfragmented messages may be interleaved; each receiver of the reference
+        //     implementation applies the header when the first fragment arrives). `receive_message` parses the header only when
+        //     the LAST fragment completes the sequence. Recorded finding, fixed witness, replayed on every run: the first
+        //     fragment of a two-fragment message creates slot (3, 7) = a@h; a whole message refers to the slot; the (empty)
+        //     last fragment follows.
+        {
+            let hdr_new: [u8; 7] = [1, 0x0b, 7, 3, b'a', b'@', b'h'];
+            let terms: [u8; 6] = [104, 1, 97, 5, 82, 0];
+            let mut first = vec![131u8, 69];
+            first.extend_from_slice(&9u64.to_be_bytes());
+            first.extend_from_slice(&2u64.to_be_bytes());
+            first.extend_from_slice(&hdr_new);
+            first.extend_from_slice(&terms);
+            let overtaking = vec![131u8, 68, 1, 0x03, 7, 104, 1, 97, 5, 82, 0];
+            let mut last = vec![131u8, 70];
+            last.extend_from_slice(&9u64.to_be_bytes());
+            last.extend_from_slice(&1u64.to_be_bytes());
+            let frames = vec![first, overtaking, last];
+            self::Runner::bump(&mut run);
+            let res = run_history(&run.listener, run.case, Api::Conn, Mode::Hdr, &frames, None).await;
+            let want = "ok~NodeLink{}~A614068";
+            ctx.count("fragment_header_cache_timing_witnesses");
+            if res.len() != 2 || res[0] != want || res[1] != want {
+                ctx.fail(
+                    "kf-c06-fragment-header-applied-late",
+                    &format!("frames={} results={} expected={}/{}", frames_word(&frames), results_word(&res), want, want),
+                );
             }
         }
 
